@@ -25,6 +25,9 @@ pub enum Ev {
     DropH(usize),
     AddImplicit,
     AddWith(usize),
+    /// set_toi(handle j) then set_toi(handle k) on the same object before it is added: the object
+    /// carries k's value, j's value is released with its handle
+    AddWithTwo(usize, usize),
     Finish,
 }
 
@@ -134,6 +137,28 @@ impl Sys15 {
                     }
                 }
             }
+            Ev::AddWithTwo(j, k) => {
+                if self.handles[*j].is_some() && self.handles[*k].is_some() && j != k {
+                    let hj = self.handles[*j].take().unwrap();
+                    let hk = self.handles[*k].take().unwrap();
+                    let (vj, vk) = (hj.get(), hk.get());
+                    let salt = self.next_salt;
+                    self.next_salt += 1;
+                    let mut d = self.obj(salt).desc(None).unwrap();
+                    d.set_toi(hj);
+                    d.set_toi(hk);
+                    self.ever_released.insert(vj);
+                    match self.sender.add_object(0, d) {
+                        Ok(t) => {
+                            if t != vk {
+                                self.viol.push(("C15/add-object-ignores-handle".into(), format!("object given handle {} and then handle {} got TOI {}", vj, vk, t)));
+                            }
+                            self.objects.insert(salt, t);
+                        }
+                        Err(e) => self.viol.push(("C15/add-refused".into(), e.0.to_string())),
+                    }
+                }
+            }
             Ev::Finish => {
                 // publish + drain: every object (single transfer) is transmitted and leaves the sender
                 self.now_ms += 10;
@@ -211,6 +236,11 @@ impl Sys for Sys15 {
                 v.push(Ev::DropH(j));
                 if self.objects.len() < 3 {
                     v.push(Ev::AddWith(j));
+                    for (k, hk) in self.handles.iter().enumerate() {
+                        if hk.is_some() && k != j {
+                            v.push(Ev::AddWithTwo(j, k));
+                        }
+                    }
                 }
             }
         }
